@@ -209,14 +209,14 @@ def answer (l : Line) : String :=
     | some fn, some alg, some kind, some key, some nonce, some data, some tag, some ad =>
       let k : Key := { kind := kind, raw := key }
       if fn = "EncryptSymmetric" ∨ fn = "Encrypt" then
-        let r := if fn = "Encrypt" then encrypt realPrims data alg k nonce ad
+        let r := if fn = "Encrypt" then encrypt realPrims pkeOfPlan ({} : KeyMat) [] data alg k nonce ad
                  else encryptSymmetric realPrims data alg k nonce ad
         let x := match r, specEncrypt alg key nonce data ad with
           | .ok out, some sp => agree (out == sp)
           | _, _ => "na"
         render r (fun o => s!"ct={toHex o.1} tag={toHex o.2} x={x}")
       else if fn = "DecryptSymmetric" ∨ fn = "Decrypt" then
-        let r := if fn = "Decrypt" then decrypt realPrims data alg k nonce tag ad
+        let r := if fn = "Decrypt" then decrypt realPrims pkeOfPlan ({} : KeyMat) data alg k nonce tag ad
                  else decryptSymmetric realPrims data alg k nonce tag ad
         -- cross-check only where the spec function's domain (valid sizes, aligned body) applies
         let x := match specDecrypt alg key nonce data tag ad with
@@ -371,23 +371,14 @@ def answer (l : Line) : String :=
     | some fn, some alg, some kind =>
       let km : KeyMat := { n := num "n", e := num "e", d := num "d", qx := num "qx", qy := num "qy", dd := num "dd",
                            seed := byt "seed", pk := byt "pk" }
-      let sw := if fn = "SignPrivateKey" then Generated.C03.sw_SignPrivateKey
-        else if fn = "VerifyPublicKey" then Generated.C03.sw_VerifyPublicKey
-        else if fn = "EncryptPublicKey" then Generated.C03.sw_EncryptPublicKey
-        else Generated.C03.sw_DecryptPrivateKey
-      match asymPlan sw alg with
-      | .err e => s!"err {clean e}"
-      | .panic w => s!"panic {clean w}"
-      | .ok pl =>
-        let S := schemeOfPlan pl
-        if fn = "EncryptPublicKey" then
-          render (encryptPublicKey (pkeOfPlan pl) alg kind km (byt "data") (byt "label") (byt "rand")) (fun c => s!"ct={toHex c}")
-        else if fn = "DecryptPrivateKey" then
-          render (decryptPrivateKey (pkeOfPlan pl) alg kind km (byt "data") (byt "label")) (fun m => s!"pt={toHex m}")
-        else if fn = "SignPrivateKey" then
-          render (signPrivateKey S alg kind km (byt "digest") (byt "rand")) (fun sg => s!"sig={toHex sg}")
-        else
-          render (verifyPublicKey S alg kind km (byt "digest") (byt "sig")) (fun b => s!"valid={b}")
+      if fn = "EncryptPublicKey" then
+        render (encryptPublicKey pkeOfPlan alg kind km (byt "data") (byt "label") (byt "rand")) (fun c => s!"ct={toHex c}")
+      else if fn = "DecryptPrivateKey" then
+        render (decryptPrivateKey pkeOfPlan alg kind km (byt "data") (byt "label")) (fun m => s!"pt={toHex m}")
+      else if fn = "SignPrivateKey" then
+        render (signPrivateKey schemeOfPlan alg kind km (byt "digest") (byt "rand")) (fun sg => s!"sig={toHex sg}")
+      else
+        render (verifyPublicKey schemeOfPlan alg kind km (byt "digest") (byt "sig")) (fun b => s!"valid={b}")
     | _, _, _ => "bad asymfull line"
   | _ => "bad op"
 
